@@ -54,7 +54,16 @@ func (x *Exec) call(fr *frame, st *State, cc *ssa.CallCommon, ins ssa.Instructio
 		return x.callFunc(fr, st, fv.F.Fn, args, fv.F.Bindings, resT, pos)
 	}
 	x.Notes.Uncontracted["call through unknown function value at "+x.Prog.Pos(pos)] = true
-	return x.havocCall(st, "dyncall", resT)
+	res := x.havocCall(st, "dyncall", resT)
+	if ct := x.rootContract; ct != nil && len(ct.DynSets) > 0 {
+		env := &evalEnv{x: x, st: st, pkg: ct.Pkg.Types, vars: map[string]Value{}}
+		for _, ds := range ct.DynSets {
+			if gk, ok := x.ghostKeys[ds.By]; ok {
+				st.Env[gk] = env.asInt(env.eval(ds.Expr))
+			}
+		}
+	}
+	return res
 }
 
 // callFunc dispatches a call to a known function.
@@ -809,6 +818,16 @@ func (x *Exec) checkPost(fr *frame, st *State, res Value, pos token.Pos) {
 	env := x.contractEnv(ct, fr.fn, fr.args, st, fr.entry)
 	for k, v := range x.ghost {
 		env.vars[k] = v
+	}
+	// a closure verified as a unit: captured variables denote their values on entry
+	if fr.verify && fr.entry != nil {
+		for i, fv := range fr.fn.FreeVars {
+			if pt, ok := fv.Type().Underlying().(*types.Pointer); ok && i < len(fr.bindings) {
+				if _, shadow := env.vars[fv.Name()]; !shadow {
+					env.vars[fv.Name()] = x.Load(scratch(fr.entry), fr.bindings[i], pt.Elem())
+				}
+			}
+		}
 	}
 	bindResult(env, fr.fn, res)
 	for i, en := range ct.Ensures {
